@@ -127,7 +127,7 @@ def ubsan_class(r):
 def watchdog_of(part):
     """per-run CPU budget (seconds) after which a run that never returns to the scheduler is declared hang:cpu-spin;
     normal runs take milliseconds (dispatcher) to a few seconds (sanitised 3-site chain)"""
-    return part.get("watchdog", 30 if part["harness"] == "c16_dispatch" else 150)
+    return part.get("watchdog", 30 if part["harness"] == "c16_dispatch" else 900 if "big=1" in part.get("cfg", "") else 150)
 
 
 def log(msg):
